@@ -29,6 +29,8 @@ type Event struct {
 	Args []Val
 	Res  Val
 	Pos  token.Pos
+	// Callee is the resolved function of a call event, when known.
+	Callee *ssa.Function
 	// CondIdx is the number of path conditions recorded before the event:
 	// it orders events relative to the path's branch decisions.
 	CondIdx int
@@ -192,6 +194,9 @@ type Engine struct {
 	// which cond holds should be dropped (recorded as a "cutoff" outcome).
 	// Used to keep bounded explorations of parse loops focused.
 	Prune func(cond *BoolVal) bool
+	// InlineIf, when set, restricts inlining of prism callees to those it
+	// accepts (given the actual arguments); the others become call events.
+	InlineIf func(st *State, fn *ssa.Function, args, bindings []Val) bool
 	// TraceCalls records an event for calls of the selected functions even
 	// though they are inlined.
 	TraceCalls func(fn *ssa.Function) bool
@@ -869,6 +874,7 @@ func (e *Engine) evalValue(st *State, fr *frame, in ssa.Value) (Val, string) {
 	switch in := in.(type) {
 	case *ssa.Alloc:
 		c := e.newCell(in.Comment, in.Type().(*types.Pointer).Elem())
+		c.Alloc = true
 		if c.Name == "" {
 			c.Name = in.Name()
 		}
